@@ -1,6 +1,7 @@
 package main
 
 import (
+	"runtime/debug"
 	"bytes"
 	"fmt"
 	"go/ast"
@@ -441,6 +442,33 @@ func (eng *Engine) verifyFunc(p *packages.Package, key string, safetyOnly bool) 
 		}()
 		u.run()
 	}()
+	// escaping function literals (goroutine bodies, callbacks, job closures): each body is executed on its own from an
+	// arbitrary state (captured variables, parameters and every heap unknown); its obligations are named
+	// <func>$lit<k>/<kind> and carry the group prefix "lit:" (claimed separately from the enclosing function's groups)
+	if res.Unsupported == "" {
+		for k := 0; k < len(u.funcLits) && k < 64; k++ {
+			fl := u.funcLits[k]
+			func() {
+				defer func() {
+					if r := recover(); r != nil {
+						if up, ok := r.(unsupportedPanic); ok {
+							u.c.note("function literal #%d not verified: %s", k, up.msg)
+							return
+						}
+						// an engine failure inside a literal must not take the enclosing function's obligations down
+						u.c.note("function literal #%d at %s not verified: internal error %v", k, u.fset.Position(fl.Pos()), r)
+						if os.Getenv("VCGO_DEBUG") != "" {
+							fmt.Fprintf(os.Stderr, "%s\n", debug.Stack())
+						}
+						u.inlineStack, u.loopStack, u.litGroup = nil, nil, false
+						u.key = key
+						return
+					}
+				}()
+				u.runLit(fl, k)
+			}()
+		}
+	}
 	res.Obls = u.obls
 	res.Abstracted = u.c.abstr
 	res.SpecErrors = u.specErrors
@@ -460,6 +488,64 @@ func (eng *Engine) verifyFunc(p *packages.Package, key string, safetyOnly bool) 
 		o.Precise = res.Precise
 	}
 	return res, nil
+}
+
+// runLit executes the body of an escaping function literal from an arbitrary state.
+func (u *Unit) runLit(fl *ast.FuncLit, k int) {
+	if u.inlineLit[fl] {
+		return // executed in place at its call sites
+	}
+	sig, _ := u.typeOf(fl).(*types.Signature)
+	if sig == nil {
+		return
+	}
+	savedKey, savedLit := u.key, u.litGroup
+	u.key = fmt.Sprintf("%s$lit%d", savedKey, k)
+	u.litGroup = true
+	defer func() { u.key, u.litGroup = savedKey, savedLit }()
+	st := &State{vars: map[*types.Var]Term{}, heaps: map[string]string{}, ghost: map[string]string{}, tainted: map[string]bool{}}
+	st.alloc = u.c.fresh("alloc", "Int")
+	st.assume("(>= " + st.alloc + " alloc@0)")
+	u.hvCounter++
+	st.hvgen = u.hvCounter
+	st.unk = true
+	for _, f := range fl.Type.Params.List {
+		for _, n := range f.Names {
+			if v, ok := u.info.Defs[n].(*types.Var); ok {
+				u.declareVar(st, v, u.freshOf(st, v.Type(), v.Name()))
+			}
+		}
+	}
+	fr := &inlineFrame{}
+	if fl.Type.Results != nil {
+		idx := 0
+		for _, f := range fl.Type.Results.List {
+			names := f.Names
+			if len(names) == 0 {
+				names = []*ast.Ident{nil}
+			}
+			for _, n := range names {
+				var rv *types.Var
+				if n != nil {
+					rv, _ = u.info.Defs[n].(*types.Var)
+				}
+				if rv == nil {
+					rv = types.NewVar(fl.Pos(), u.pkg.Types, fmt.Sprintf("escret%d_%d", k, idx), sig.Results().At(idx).Type())
+				}
+				fr.results = append(fr.results, rv)
+				u.declareVar(st, rv, u.zeroOf(rv.Type()))
+				idx++
+			}
+		}
+	}
+	savedStack, savedLoops := u.inlineStack, u.loopStack
+	u.inlineStack = []*inlineFrame{fr}
+	u.loopStack = nil
+	end := u.execBlock(st, fl.Body.List)
+	if end != nil && sig.Results().Len() == 0 {
+		u.runInlineDefers(end, fr)
+	}
+	u.inlineStack, u.loopStack = savedStack, savedLoops
 }
 
 // run executes the function body symbolically.
